@@ -425,6 +425,28 @@ func (e *enc) loopEnv(h *ssa.BasicBlock, phiOverride map[*ssa.Phi]Val) *Env {
 			vars[name] = val
 		}
 	}
+	// loop-carried variables of the enclosing loops (their header phis dominate this head), outermost first
+	var outer []*ssa.BasicBlock
+	for h2, l2 := range e.loops {
+		if h2 != h && l2.blocks[h] {
+			outer = append(outer, h2)
+		}
+	}
+	sort.Slice(outer, func(a, b int) bool { return len(e.loops[outer[a]].blocks) > len(e.loops[outer[b]].blocks) })
+	for _, h2 := range outer {
+		for _, in := range h2.Instrs {
+			phi, ok := in.(*ssa.Phi)
+			if !ok {
+				break
+			}
+			if phi.Comment == "" || phi.Comment == "rangeindex" {
+				continue
+			}
+			if val, ok := e.vals[phi]; ok {
+				vars[phi.Comment] = val
+			}
+		}
+	}
 	for _, in := range h.Instrs {
 		phi, ok := in.(*ssa.Phi)
 		if !ok {
@@ -583,6 +605,10 @@ func (e *enc) loopHead(h *ssa.BasicBlock, li *loopInfo, entryPhi func(*ssa.Phi) 
 		}
 	}
 	// 2. havoc
+	frontierAtEntry := ""
+	if _, ok := e.sorts["frontier"]; ok {
+		frontierAtEntry = e.get("frontier")
+	}
 	if e.discover || e.loopWrites[h]["*"] {
 		e.havocAllN(false)
 	} else {
@@ -615,6 +641,9 @@ func (e *enc) loopHead(h *ssa.BasicBlock, li *loopInfo, entryPhi func(*ssa.Phi) 
 	if _, ok := e.sorts["frontier"]; ok && (e.discover || e.loopWrites[h]["frontier"] || e.loopWrites[h]["*"]) {
 		// frontier only grows
 		e.assume("(>= " + e.get("frontier") + " " + e.getIn(e.initSt, "frontier") + ")")
+		if frontierAtEntry != "" && frontierAtEntry != e.get("frontier") {
+			e.assume("(>= " + e.get("frontier") + " " + frontierAtEntry + ")")
+		}
 	}
 	for _, in := range h.Instrs {
 		phi, ok := in.(*ssa.Phi)
@@ -623,6 +652,7 @@ func (e *enc) loopHead(h *ssa.BasicBlock, li *loopInfo, entryPhi func(*ssa.Phi) 
 		}
 		fv := e.freshVal("loop."+phi.Name(), phi.Type())
 		e.vals[phi] = fv
+		e.assumeAllocatedNow(fv) // a reference carried around the loop was allocated before this point
 	}
 	// 3. assume invariants
 	envH := e.loopEnv(h, nil)
